@@ -313,13 +313,53 @@ def rule_forms(ck):
     (o.ok() if good else o.fail("from_dict does not rebuild the events from adict['catalog']"))
     d = P.func(A + 'to_dataframe')
     o = ck.ob('C14-D7.todf', d, 'DataFrame(self.catalog) with catalog_id column', d.node)
-    txt = ' '.join(u(s) for s in d.node.body)
-    (o.ok() if 'pandas.DataFrame(self.catalog)' in txt and "df['catalog_id'] = self.catalog_id" in txt else o.fail('to_dataframe does not carry the events and the catalog id'))
+    exd = Expander(P, d)
+    frames = [c for c in calls_in(P, d, 'pandas.DataFrame') if c.args and u(strip_shape(exd.expand(c.args[0]))) in ('self.catalog', 'self._catalog', 'self.data')]
+    idcol = [n for n in all_nodes(d) if isinstance(n, ast.Assign) and isinstance(n.targets[0], ast.Subscript) and const_value(n.targets[0].slice) == 'catalog_id'
+             and u(n.value) == 'self.catalog_id']
+    (o.ok() if frames and idcol else o.fail('to_dataframe does not carry the events and the catalog id'))
     g = P.func(A + 'from_dataframe')
     o = ck.ob('C14-D7.fromdf', g, 'records of the dtype columns', g.node)
-    txt = ' '.join(u(s) for s in g.node.body)
-    good = 'col_list = list(cls.dtype.names)' in txt and 'df[col_list].to_records(index=False)' in txt and 'dtype=cls.dtype' in txt and 'catalog_id=catalog_id' in txt
-    (o.ok() if good else o.fail('from_dataframe does not select exactly the dtype columns as records / loses the catalog id'))
+    exg = Expander(P, g)
+    ctor = [c for c in all_nodes(g) if isinstance(c, ast.Call) and isinstance(c.func, ast.Name) and c.func.id == 'cls']
+    probs = []
+    if len(ctor) != 1:
+        probs.append('no single cls(...) construction')
+    else:
+        data = kw(ctor[0], 'data', 0)
+        e = exg.expand(data) if data is not None else None
+        # peel order-preserving conversions down to df[<columns>]
+        saw_dtype = saw_noindex = False
+        cur = e
+        while cur is not None:
+            if isinstance(cur, ast.Call):
+                nm = call_name(cur) or ''
+                if kw(cur, 'dtype') is not None and u(kw(cur, 'dtype')) == 'cls.dtype':
+                    saw_dtype = True
+                if nm == '.to_records':
+                    ix = kw(cur, 'index', 0)
+                    saw_noindex = ix is not None and const_value(ix) is False
+                    cur = cur.func.value
+                    continue
+                if nm in ('.copy', '.astype', '.reset_index') :
+                    cur = cur.func.value
+                    continue
+                if nm in ('numpy.ascontiguousarray', 'numpy.asarray', 'numpy.array') and cur.args:
+                    cur = cur.args[0]
+                    continue
+            break
+        cols = u(cur.slice) if isinstance(cur, ast.Subscript) and u(cur.value) == g.positional_params[1 if g.positional_params[0] in ('cls', 'self') else 0] else None
+        if cols not in ('builtins.list(cls.dtype.names)', 'cls.dtype.names', '[*cls.dtype.names]'):
+            probs.append('the events are `%s`, not the frame restricted to the dtype columns' % u(e)[:80] if e is not None else 'no data argument')
+        if not saw_noindex:
+            probs.append('to_records(index=False) is missing: the frame index would become an extra field')
+        if not saw_dtype:
+            probs.append('the records are not cast to cls.dtype')
+        cid = kw(ctor[0], 'catalog_id')
+        ce = u(exg.expand(cid)) if cid is not None else ''
+        if "df['catalog_id']" not in ce.replace('"', "'"):
+            probs.append('the catalog id is not taken from the catalog_id column')
+    (o.fail('from_dataframe does not select exactly the dtype columns as records / loses the catalog id: ' + '; '.join(probs)) if probs else o.ok())
     # row order and row set: between the event array and the frame (and back) nothing may reorder, drop or repeat rows
     REORDER = {'sort_values', 'sort_index', 'sort', 'sample', 'drop_duplicates', 'dropna', 'groupby', 'reindex', 'nlargest', 'nsmallest',
                'query', 'head', 'tail', 'drop', 'unique', 'shuffle', 'argsort', 'take', 'truncate', 'resample', 'merge', 'join', 'explode'}
